@@ -361,27 +361,37 @@ func (s *serverSocket) onClose(reason Reason) {
 			}()
 		}, false)
 
+		s.joinMu.Lock()
+		s.join = func(room ...Room) {}
+		s.joinMu.Unlock()
+		wg.WaitTimeout(10 * time.Second)
+
+		var session *adapter.SessionToPersist
 		if s.server.connectionStateRecovery.Enabled && recoverableDisconnectReasons.Contains(reason) {
 			s.debug.Log("Connection state recovery is enabled")
 			rooms, ok := s.adapter.SocketRooms(s.ID())
 			if !ok {
 				rooms = mapset.NewThreadUnsafeSet[Room]()
 			}
-			s.adapter.PersistSession(&adapter.SessionToPersist{
+			session = &adapter.SessionToPersist{
 				SID:   s.ID(),
 				PID:   s.pid,
 				Rooms: rooms.ToSlice(),
-			})
+			}
 		}
 
-		s.joinMu.Lock()
-		s.join = func(room ...Room) {}
-		s.joinMu.Unlock()
-		wg.WaitTimeout(10 * time.Second)
 		s.leaveAll()
 
 		s.nsp.remove(s)
 		s.conn.remove(s)
+
+		// Persist the session only now. Once the session is in the adapter, the client can come back
+		// and a new socket with the same ID gets created: it joins the rooms and is put into the namespace
+		// under this ID. `leaveAll` and `nsp.remove` above work with the ID. Were they to run after that,
+		// they would take the rooms of the new socket and remove the new socket from the namespace.
+		if session != nil {
+			s.adapter.PersistSession(session)
+		}
 
 		s.connectedMu.Lock()
 		s.connected = false
